@@ -35,6 +35,7 @@ INVARIANT InvNoneIffNoOverlap
 INVARIANT InvValuesLen
 CHECK_DEADLOCK FALSE
 """
+DTYPES = {'float': float, 'int': int, 'bool': bool, '-': float}
 FILL = {'zero': 0.0, 'seven': 7.0, 'nan': float('nan'), 'inf': float('inf')}
 
 
@@ -104,12 +105,29 @@ def replay(ctx, st, idx):
     ny, nx = box[3] - box[2], box[1] - box[0]
     try:
         if op == 'to_image':
-            out = mask.to_image((h, w))
+            dt = DTYPES[arg]
+            out = mask.to_image((h, w), dtype=dt)
             want = rows(res)
             if (out is None) != (want is None):
                 return ctx.violation(sig + 'none', f'to_image returned {"None" if out is None else "an image"}, model says {"None" if want is None else "an image"}', case)
-            if out is not None and (out.shape != (h, w) or not np.array_equal(out * 2, np.array(want).reshape(h, w))):
-                return ctx.violation(sig + 'values', 'to_image differs from placing the mask at (ixmin, iymin)', dict(case, real=out.tolist(), model_x2=want))
+            if out is not None and (out.shape != (h, w) or out.dtype != np.dtype(dt) or not np.array_equal(out.astype(float) * 2, np.array(want).reshape(h, w))):
+                return ctx.violation(sig + 'values', f'to_image(dtype={arg}) differs from placing the (cast) mask at (ixmin, iymin)', dict(case, real=out.tolist(), model_x2=want))
+            # the same call again after a call with another dtype, on the same mask object: the answer may not depend on the history
+            if out is not None:
+                other = mask.to_image((h, w), dtype=float if arg != 'float' else np.int32)
+                again = mask.to_image((h, w), dtype=dt)
+                if again.dtype != out.dtype or not np.array_equal(again, out):
+                    return ctx.violation(sig + 'history', f'to_image(dtype={arg}) gives another answer after to_image with another dtype on the same mask', dict(case, first=out.tolist(), again=again.tolist()))
+                if arg != 'float' and not np.array_equal(other, mask.to_image((h, w))):
+                    return ctx.violation(sig + 'history', 'to_image() differs between two calls on the same mask', case)
+                if arg != 'float':
+                    exp = np.zeros((h, w))
+                    for y in range(h):
+                        for x in range(w):
+                            if box[0] <= x < box[1] and box[2] <= y < box[3]:
+                                exp[y, x] = weight(pat, y - box[2], x - box[0]) / 2.0
+                    if not np.array_equal(other, exp):
+                        return ctx.violation(sig + 'history', f'to_image() after to_image(dtype={arg}) on the same mask is not the placed mask (weights truncated?)', dict(case, real=other.tolist()))
         elif op == 'cutout':
             fill = FILL[arg]
             out = mask.cutout(img, fill_value=fill, copy=copy)
@@ -215,37 +233,40 @@ def trace_validation(ctx):
         y0 = rnd.randint(-7, h + 2) + (far if rnd.random() < 0.3 else 0)
         box = [x0, x0 + nx, y0, y0 + ny]
         pat = rnd.choice(['ones', 'checker', 'mix', 'half'])
-        op = rnd.choice(['to_image', 'cutout', 'multiply', 'get_values'])
         itype = rnd.choice([int, np.int32, np.int64])
         data = np.array([[weight(pat, j, i) / 2.0 for i in range(nx)] for j in range(ny)], dtype=float).reshape(ny, nx)
         mask = RegionMask(data, RegionBoundingBox(itype(box[0]), itype(box[1]), itype(box[2]), itype(box[3])))
         img = make_image(h, w, rnd.choice(['int', 'float']))
-        arg = '-'
-        try:
-            if op == 'to_image':
-                out = mask.to_image((h, w))
-                res = enc(None if out is None else [[int(round(2 * v)) for v in row] for row in out.tolist()])
-            elif op == 'cutout':
-                out = mask.cutout(img, fill_value=-1.0)
-                res = enc(None if out is None else [[['f'] if v == -1.0 else ['d', int(v)] for v in row] for row in np.asarray(out).tolist()])
-            elif op == 'multiply':
-                out = mask.multiply(img, fill_value=0.0)
-                res = enc(None if out is None else [[['z'] if v == 0 else ['d', int(v)] for v in row] for row in np.asarray(out).tolist()])
-            else:
-                arg = rnd.choice(['nomask', 'alt'])
-                mk = None if arg == 'nomask' else np.array([[(x + y) % 2 == 1 for x in range(w)] for y in range(h)], dtype=bool).reshape(h, w)
-                out = mask.get_values(img, mask=mk)
-                res = [int(v) for v in np.asarray(out).tolist()]
-        except Exception as ex:  # noqa
-            ctx.violation(f'C05|trace|{op}|raises|{type(ex).__name__}', f'{op} raised {ex!r}', {'box': box, 'image_shape': [h, w]})
-            continue
-        # a result of the wrong dimensions cannot even be compared cell by cell: report it here
-        if res is not None and op != 'get_values':
-            want_shape = (h, w) if op == 'to_image' else (ny, nx)
-            if (len(res), len(res[0]) if res else 0) != (want_shape if want_shape[0] else (0, 0)):
-                ctx.violation(f'C05|trace|{op}|shape', f'{op} returned an array of the wrong shape', {'box': box, 'image_shape': [h, w]})
+        # a short history of calls on the same mask object and image
+        for call in range(rnd.randint(1, 4)):
+            op = rnd.choice(['to_image', 'to_image', 'cutout', 'multiply', 'get_values'])
+            arg = '-'
+            try:
+                if op == 'to_image':
+                    arg = rnd.choice(['float', 'int', 'bool'])
+                    out = mask.to_image((h, w), dtype=DTYPES[arg])
+                    res = enc(None if out is None else [[int(round(2 * float(v))) for v in row] for row in out.tolist()])
+                elif op == 'cutout':
+                    out = mask.cutout(img, fill_value=-1.0)
+                    res = enc(None if out is None else [[['f'] if v == -1.0 else ['d', int(v)] for v in row] for row in np.asarray(out).tolist()])
+                elif op == 'multiply':
+                    out = mask.multiply(img, fill_value=0.0)
+                    res = enc(None if out is None else [[['z'] if v == 0 else ['d', int(v)] for v in row] for row in np.asarray(out).tolist()])
+                else:
+                    arg = rnd.choice(['nomask', 'alt'])
+                    mk = None if arg == 'nomask' else np.array([[(x + y) % 2 == 1 for x in range(w)] for y in range(h)], dtype=bool).reshape(h, w)
+                    out = mask.get_values(img, mask=mk)
+                    res = [int(v) for v in np.asarray(out).tolist()]
+            except Exception as ex:  # noqa
+                ctx.violation(f'C05|trace|{op}|raises|{type(ex).__name__}', f'{op} raised {ex!r}', {'box': box, 'image_shape': [h, w]})
                 continue
-        events.append({'op': op, 'box': box, 'h': h, 'w': w, 'pat': pat, 'arg': arg, 'isnone': res is None, 'res': [] if res is None else res})
+            # a result of the wrong dimensions cannot even be compared cell by cell: report it here
+            if res is not None and op != 'get_values':
+                want_shape = (h, w) if op == 'to_image' else (ny, nx)
+                if (len(res), len(res[0]) if res else 0) != (want_shape if want_shape[0] else (0, 0)):
+                    ctx.violation(f'C05|trace|{op}|shape', f'{op} returned an array of the wrong shape', {'box': box, 'image_shape': [h, w]})
+                    continue
+            events.append({'op': op, 'box': box, 'h': h, 'w': w, 'pat': pat, 'arg': arg, 'isnone': res is None, 'res': [] if res is None else res, 'call': call})
     wd = tlc.workdir('c05trace')
     path = os.path.join(wd, 'events.json')
     with open(path, 'w') as f:
